@@ -179,15 +179,23 @@ func propC18(t *rapid.T) {
 		fillers := 0
 		if rapid.IntRange(0, 4).Draw(t, "highcodes") == 0 {
 			fillers = rapid.IntRange(190, 220).Draw(t, "fillers")
-			if rapid.Bool().Draw(t, "fullenum") {
-				// exactly the 255 values an enum can hold: the values in use get the last codes there are
+			if fe := rapid.IntRange(0, 2).Draw(t, "fullenum"); fe > 0 {
+				// exactly the 255 values an enum can hold: the values in use get the last codes there are; or exactly
+				// 63/64/65, 127/128/129, 191/192/193 values (the word boundaries of the 256-bit code set)
 				distinct := map[string]bool{}
 				for _, p := range cells {
 					if p != nil {
 						distinct[*p] = true
 					}
 				}
-				fillers = 255 - len(distinct)
+				total := 255
+				if fe == 2 {
+					total = rapid.SampledFrom([]int{63, 64, 65, 64, 127, 128, 129, 191, 192, 193}).Draw(t, "enumtotal")
+				}
+				fillers = total - len(distinct)
+				if fillers < 0 {
+					fillers = 0
+				}
 			}
 			var decl []string
 			for i := 0; i < fillers; i++ {
@@ -202,13 +210,38 @@ func propC18(t *rapid.T) {
 			}
 			tab.Cols[1].Enum = decl
 		}
-		wrap := rapid.SampledFrom([]string{"plain", "plain", "or(other,like)", "or(like,other)", "and(other,like)", "or(other,other2,like)"}).Draw(t, "wrap")
+		wrap := rapid.SampledFrom([]string{"plain", "plain", "or(other,like)", "or(like,other)", "and(other,like)", "or(other,other2,like)", "or(like,like2)", "and(like,like2)", "or(like2,other,like)"}).Draw(t, "wrap")
+		// a second pattern leaf (own comparator, own inversion) next to the first in one Or/And: the leaves of one
+		// combinator are evaluated together
+		var pattern2, comp2 string
+		var inverse2 bool
+		var match2 func(string) bool
+		if strings.Contains(wrap, "like2") {
+			var src string
+			for tries := 0; tries < 5; tries++ {
+				if p := cells[rapid.IntRange(0, n-1).Draw(t, "srccell2")]; p != nil {
+					src = *p
+					break
+				}
+			}
+			pattern2 = []string{"", "%"}[rapid.IntRange(0, 1).Draw(t, "wild2a")] + flipCase(t, runeSub(t, src)) + []string{"", "%"}[rapid.IntRange(0, 1).Draw(t, "wild2b")]
+			comp2 = rapid.SampledFrom([]string{"like", "ilike"}).Draw(t, "comp2")
+			inverse2 = rapid.Bool().Draw(t, "inverse2")
+			if inverse2 && rapid.Bool().Draw(t, "bothinverse") {
+				inverse = true
+			}
+			m2, err2 := hx.LikeModel(pattern2, comp2 == "ilike")
+			if err2 != nil || !utf8.ValidString(pattern2) || strings.Contains(stripGroups(pattern2), "|") {
+				wrap = "plain"
+			}
+			match2 = m2
+		}
 		desc := func() string {
 			cs := make([]string, n)
 			for i, p := range cells {
 				cs[i] = ptrStr(p)
 			}
-			return fmt.Sprintf("cells %s\n%s pattern %q (%+q) inverse=%v unused enum values declared first: %d wrap=%s", strings.Join(cs, " "), comp, pattern, pattern, inverse, fillers, wrap)
+			return fmt.Sprintf("cells %s\n%s pattern %q (%+q) inverse=%v unused enum values declared first: %d wrap=%s (second leaf: %s %q inverse=%v)", strings.Join(cs, " "), comp, pattern, pattern, inverse, fillers, wrap, comp2, pattern2, inverse2)
 		}
 		qf := hx.Build(tab)
 		if qf.Err != nil {
@@ -247,6 +280,12 @@ func propC18(t *rapid.T) {
 				f2 = qframe.And(other, f)
 			case "or(other,other2,like)":
 				f2 = qframe.Or(other, other2, f)
+			case "or(like,like2)":
+				f2 = qframe.Or(f, qframe.Filter{Column: col, Comparator: comp2, Arg: pattern2, Inverse: inverse2})
+			case "and(like,like2)":
+				f2 = qframe.And(f, qframe.Filter{Column: col, Comparator: comp2, Arg: pattern2, Inverse: inverse2})
+			case "or(like2,other,like)":
+				f2 = qframe.Or(qframe.Filter{Column: col, Comparator: comp2, Arg: pattern2, Inverse: inverse2}, other, f)
 			}
 			if perr := hx.Safely(func() { results[i] = qf.Filter(f2) }); perr != nil {
 				t.Fatalf("Filter on %s panicked: %v\n%s", col, perr, desc())
@@ -275,6 +314,20 @@ func propC18(t *rapid.T) {
 				m = m && id < half
 			case "or(other,other2,like)":
 				m = m || id < half || id == n-1
+			}
+			if strings.Contains(wrap, "like2") {
+				m2 := p != nil && match2(*p)
+				if inverse2 {
+					m2 = !m2
+				}
+				switch wrap {
+				case "or(like,like2)":
+					m = m || m2
+				case "and(like,like2)":
+					m = m && m2
+				case "or(like2,other,like)":
+					m = m || m2 || id < half
+				}
 			}
 			if m {
 				keep = append(keep, r)
